@@ -376,28 +376,70 @@ def run_case(ctx, index):
                 mat.data[k] = 0.0
                 D3 = np.asarray(mat.toarray(), dtype=float)
                 want = int(np.count_nonzero(D3))
-                if t3.nnz != want or not close(
-                        [t3.get_table_density()], [want / D3.size]) or \
-                        ('with %d nonzero entries' % want) not in repr(t3):
-                    fail('nnz-after-stored-zero', 'nnz %r, density %r, %r; '
-                         'the matrix has %d non-zero cells of %d (counts '
-                         'asked before: %r)' % (t3.nnz,
-                                                t3.get_table_density(),
-                                                repr(t3), want, D3.size,
-                                                asked_first))
-                for binary in (False, True):
-                    per = (D3 != 0).sum(axis=0).astype(float) if binary \
-                        else D3.sum(axis=0)
-                    mn, mx, med, mean, counts = \
-                        compute_counts_per_sample_stats(
-                            t3, binary_counts=binary)
-                    if not close([mn, mx, med, mean],
-                                 [per.min(), per.max(), np.median(per),
-                                  per.mean()]) or \
-                            not close(list(counts.values()), per):
-                        fail('stats-stored-zero-%s' % binary, '%r / %r vs '
-                             'counts %r' % ([mn, mx, med, mean],
-                                            dict(counts), per.tolist()))
+
+                def q_counts():
+                    if t3.nnz != want or not close(
+                            [t3.get_table_density()], [want / D3.size]) or \
+                            ('with %d nonzero entries' % want) not in repr(t3):
+                        fail('nnz-after-stored-zero', 'nnz %r, density %r, '
+                             '%r; the matrix has %d non-zero cells of %d '
+                             '(counts asked before: %r)' %
+                             (t3.nnz, t3.get_table_density(), repr(t3), want,
+                              D3.size, asked_first))
+
+                binary_order = [False, True]
+                r.shuffle(binary_order)
+
+                def q_stats():
+                    for binary in binary_order:
+                        per = (D3 != 0).sum(axis=0).astype(float) if binary \
+                            else D3.sum(axis=0)
+                        mn, mx, med, mean, counts = \
+                            compute_counts_per_sample_stats(
+                                t3, binary_counts=binary)
+                        if not close([mn, mx, med, mean],
+                                     [per.min(), per.max(), np.median(per),
+                                      per.mean()]) or \
+                                not close(list(counts.values()), per):
+                            fail('stats-stored-zero-%s' % binary, '%r / %r '
+                                 'vs counts %r' % ([mn, mx, med, mean],
+                                                   dict(counts),
+                                                   per.tolist()))
+
+                def q_nonzero_counts():
+                    for ax, v in (('sample', (D3 != 0).sum(axis=0)),
+                                  ('observation', (D3 != 0).sum(axis=1)),
+                                  ('whole', np.array([(D3 != 0).sum()]))):
+                        got = np.asarray(t3.nonzero_counts(ax)).reshape(-1)
+                        if got.tolist() != v.tolist():
+                            fail('nonzero-counts-stored-zero', '%s: %r vs %r'
+                                 % (ax, got.tolist(), v.tolist()))
+                def q_minmax():
+                    for ax, axn in (('sample', 0), ('observation', 1)):
+                        vecs = D3.T if ax == 'sample' else D3
+                        if not all(np.any(v != 0) for v in vecs):
+                            continue
+                        mn_ = np.asarray(t3.min(ax)).reshape(-1)
+                        mx_ = np.asarray(t3.max(ax)).reshape(-1)
+                        wmn = [float(v[v != 0].min()) for v in vecs]
+                        wmx = [float(v[v != 0].max()) for v in vecs]
+                        if mn_.tolist() != wmn or mx_.tolist() != wmx:
+                            fail('minmax-stored-zero', '%s: min %r max %r, '
+                                 'the non-zero values give %r / %r' %
+                                 (ax, mn_.tolist(), mx_.tolist(), wmn, wmx))
+
+                def q_listed():
+                    got = sorted((str(a), str(b)) for a, b in t3.nonzero())
+                    want_ = sorted((spec.obs_ids[i], spec.samp_ids[j])
+                                   for i, j in zip(*np.nonzero(D3)))
+                    if got != want_:
+                        fail('nonzero-stored-zero', 'nonzero() lists %r, the '
+                             'non-zero cells are %r' % (got, want_))
+                # whichever question comes first sees the stored zero
+                qs = [q_counts, q_stats, q_nonzero_counts, q_minmax, q_listed]
+                r.shuffle(qs)
+                for q in qs:
+                    q()
                 ctx.count('stats_with_stored_zero')
         elif what == 'summarize':
             from biom.cli.table_summarizer import _summarize_table
@@ -421,10 +463,12 @@ def run_case(ctx, index):
                          '%r' % (list(df.index), list(df.columns)))
                 if not snap.bits_equal(vals, D):
                     # mechanism-level classification: the only difference is
-                    # NaN exactly where the matrix is zero (missing-value
-                    # fill of the sparse frame)
+                    # NaN where the matrix is zero and nothing is stored
+                    # (missing-value fill of the sparse frame; a zero that
+                    # happens to be stored comes out as 0.0)
                     nan_for_zero = (not dense and vals.shape == D.shape and
-                                    np.array_equal(np.isnan(vals), D == 0)
+                                    np.isnan(vals).any() and
+                                    np.all(D[np.isnan(vals)] == 0)
                                     and snap.bits_equal(
                                         np.where(np.isnan(vals), 0., vals),
                                         D))
